@@ -206,6 +206,37 @@ Fixpoint vcmp (a b : gval A) : option comparison :=
   | _, _ => None
   end.
 
+(* the type of a value as far as Micheline.assert_type_equal looks at it (prims and arity, no annotations) *)
+Fixpoint ty_shape_eqb (t u : gty A) : bool :=
+  match t, u with
+  | TyPrim _ p, TyPrim _ q => byte_eqb p q
+  | TyPair _ l r, TyPair _ l' r' => ty_shape_eqb l l' && ty_shape_eqb r r'
+  | TyOption _ x, TyOption _ y => ty_shape_eqb x y
+  | TyOr _ l r, TyOr _ l' r' => ty_shape_eqb l l' && ty_shape_eqb r r'
+  | _, _ => false
+  end.
+
+Definition T_bytes0 := x69. Definition T_string0 := x68. Definition T_bool0 := x59. Definition T_unit0 := x6c.
+
+Fixpoint type_of (v : gval A) : gty A :=
+  match v with
+  | GInt a p _ => TyPrim a p
+  | GStr a _ => TyPrim a T_string0
+  | GByt a _ => TyPrim a T_bytes0
+  | GBool a _ => TyPrim a T_bool0
+  | GUnit a => TyPrim a T_unit0
+  | GPair a x y => TyPair a (type_of x) (type_of y)
+  | GNone a t => TyOption a t
+  | GSome a w => TyOption a (type_of w)
+  | GLeft a w rt => TyOr a (type_of w) rt
+  | GRight a lt w => TyOr a lt (type_of w)
+  | GPacked a _ => TyPrim a T_bytes0
+  end.
+
+(* COMPARE: a.assert_type_equal(type(b)) first, then the comparison *)
+Definition compare_checked (a b : gval A) : option comparison :=
+  if ty_shape_eqb (type_of a) (type_of b) then vcmp a b else None.
+
 Definition cmp_Z (c : comparison) : Z := match c with Lt => (-1)%Z | Eq => 0%Z | Gt => 1%Z end.
 Definition T_int := x5b.
 
@@ -301,7 +332,7 @@ Definition step (i : cinstr) (s : gstack) : result gstack :=
   | IPair, x :: y :: s' => Ok (GPair d x y :: s')
   | IUnpair, GPair _ x y :: s' => Ok (x :: y :: s')
   | ICompare, a :: b :: s' =>
-      match vcmp a b with Some c => Ok (GInt d T_int (cmp_Z c) :: s') | None => Reject end
+      match compare_checked a b with Some c => Ok (GInt d T_int (cmp_Z c) :: s') | None => Reject end
   | IPack, v :: s' => Ok (GPacked d (to_mich Optimized v) :: s')
   | IDup, v :: _ => Ok (v :: s)
   | ISwap, a :: b :: s' => Ok (b :: a :: s')
